@@ -30,11 +30,15 @@ theorem em_queue_is_unbounded : ∀ r ∈ emQueueBound, r.2 = 0 := by decide
 /-- Third table: the REAL `run_suites` executed on a small project with / without a reporting-backend failure and
     with / without a keyboard interrupt (delivered before or after the failure); what the caller saw (returned
     verdict, or the class of the raised error and whether it carries the backend's text) equals
-    `RunOutcome.outcome` of the facts of that run.  Row: ((interrupted, backend failed, report successful), outcome). -/
-def evalOutcome (r : Bool × Bool × Bool) : String :=
-  let (interrupted, failed, successful) := r
+    `RunOutcome.outcome` of the facts of that run, the pending failure being what `RunOutcome.pendingAfter` makes of the
+    CLASS of what the handler raised (user-defined Exception, StopIteration, StopAsyncIteration: recorded; GeneratorExit,
+    SystemExit, KeyboardInterrupt: not caught by `except Exception` — finding D42).
+    Row: ((interrupted, backend failed, report successful, class name), outcome). -/
+def evalOutcome (r : Bool × Bool × Bool × String) : String :=
+  let (interrupted, failed, successful, cls) := r
   (RunOutcome.outcome { interrupted := interrupted, taskException := false,
-                        pending := if failed then some "T" else none, successful := successful }).name
+                        pending := if failed then RunOutcome.pendingAfter (RunOutcome.FaultClass.ofName cls) "T" else none,
+                        successful := successful }).name
 
 theorem run_outcome_table_agrees : ∀ r ∈ runOutcomeTable, evalOutcome r.1 = r.2 := by decide
 
